@@ -214,9 +214,17 @@ func strRange(r *object.PanRange, runes []rune) object.PanObject {
 	runeArr := valRange(r, len(runes), func(i int64) object.PanObject {
 		return strIndex(i, runes)
 	})
+	arr, ok := runeArr.(*object.PanArr)
+	if !ok {
+		// error (like zero step)
+		return runeArr
+	}
+
 	var out bytes.Buffer
-	for _, elem := range runeArr.(*object.PanArr).Elems {
-		out.WriteString(elem.(*object.PanStr).Value)
+	for _, elem := range arr.Elems {
+		if s, ok := elem.(*object.PanStr); ok {
+			out.WriteString(s.Value)
+		}
 	}
 	return object.NewPanStr(out.String())
 }
